@@ -24,7 +24,7 @@ pub fn set_thread_incarnation(id: u64) {
 }
 
 /// Watchdog for "the process never reached a point / never finished" (tool error, not a verdict).
-pub const STUCK_AFTER: Duration = Duration::from_secs(180);
+pub const STUCK_AFTER: Duration = Duration::from_secs(120);
 
 #[derive(Default)]
 struct GateState {
